@@ -16,6 +16,15 @@ MANIFEST = dict(
 
 def run(chk, tier):
     loop_check.run(chk, tier, 'C01')
+    # the heap under queue.PriorityQueue: Heapq.v (proved to refine the abstract queue, props/Heapq.v) against CPython's heapq
+    import io, contextlib, heapq_corr
+    buf = io.StringIO()
+    with contextlib.redirect_stdout(buf):
+        ok = heapq_corr.run(n=60 if tier == "quick" else 600, seed=chk.seed)
+    chk.extra["heapq_model_vs_cpython"] = buf.getvalue().strip()[:400]
+    if ok is False or "differences=0" not in buf.getvalue():
+        chk.violation("heapq-model", "the Gallina transcription of CPython's heapq differs from the real heapq: " + buf.getvalue()[-300:],
+                      dict(kind="heapq"), found=False)
 
 
 def replay(path):
